@@ -97,7 +97,7 @@ class Interp {
 
   // ---- location lookup ------------------------------------------------------------------
   int pre_slot_eid[NALL];
-  int pre_mon_eid[NDW][NMON];
+  int pre_mon_eid[NDW][NMONX];
   int eid_at(const std::string& file, unsigned long line) const {
     // expectations alive before or after the current operation (a release removes it from the model first)
     for (int s = 0; s < NALL; ++s) {
@@ -105,7 +105,7 @@ class Interp {
       if (e >= 0 && file == real::slot_file(s) && line == real::exp_line(s)) return e;
     }
     if (file == real::mon_file())
-      for (int d = 0; d < NDW; ++d) for (int k = 0; k < NMON; ++k) {
+      for (int d = 0; d < NDW; ++d) for (int k = 0; k < NMONX; ++k) {
         int e = m.mon_eid[d][k] >= 0 ? m.mon_eid[d][k] : pre_mon_eid[d][k];
         if (e >= 0 && line == real::mon_line(d, k)) return e;
       }
@@ -397,16 +397,15 @@ class Interp {
   static void scoped_step(void* vctx, int kind, int index, const CallResult& r) {
     auto* c = static_cast<ScopedCtx*>(vctx);
     Interp& in = *c->self;
-    if (in.stop) { in.check_severity_only(); real::g_log.clear(); return; }
+    Op sub = kind == 0 ? c->createA : kind == 1 ? c->createB : kind == 2 ? c->calls[static_cast<size_t>(index)]
+             : kind == 3 ? Op{O_RELEASE, {NSLOT + NLIT + 1}} : Op{O_RELEASE, {NSLOT + NLIT}};
+    if (in.stop) {   // unchecked part of a case: only keep the model's bookkeeping (slots, ids) in step
+      if (in.m.applicable(sub)) in.m.step(sub);
+      in.check_severity_only(); real::g_log.clear(); return;
+    }
     in.injected = true;
     in.inj_got = r;
-    switch (kind) {
-      case 0: in.run_op(c->createA); break;
-      case 1: in.run_op(c->createB); break;
-      case 2: in.run_op(c->calls[static_cast<size_t>(index)]); break;
-      case 3: in.run_op(Op{O_RELEASE, {NSLOT + NLIT + 1}}); break;
-      case 4: in.run_op(Op{O_RELEASE, {NSLOT + NLIT}}); break;
-    }
+    in.run_op(sub);
     in.injected = false;
     real::g_log.clear();
   }
@@ -418,6 +417,30 @@ class Interp {
     o.a[CA_M0K] = f.m0.kind; o.a[CA_M0V] = f.m0.val; o.a[CA_M1K] = f.m1.kind; o.a[CA_M1V] = f.m1.val;
     o.a[CA_W0] = f.with0; o.a[CA_X0] = f.fx0;
     return o;
+  }
+  struct ScopedDwCtx { Interp* self; Op watch, kill, unwatch; };
+  static void scoped_dw_step(void* vctx, int kind) {
+    auto* c = static_cast<ScopedDwCtx*>(vctx);
+    Interp& in = *c->self;
+    const Op& sub = kind == 0 ? c->watch : kind == 1 ? c->kill : c->unwatch;
+    if (in.stop) {   // unchecked part of a case: only keep the model's liveness bookkeeping in step
+      if (in.m.applicable(sub)) in.m.step(sub);
+      in.check_severity_only(); real::g_log.clear(); return;
+    }
+    in.injected = true;
+    in.inj_got = CallResult{};
+    in.run_op(sub);
+    in.injected = false;
+    real::g_log.clear();
+  }
+  void run_scoped_dw(const Op& o) {
+    if (!m.applicable(o)) { res.noops++; return; }
+    res.scoped_blocks++;
+    ScopedDwCtx c{this, Op{O_WATCH, {o.at(0), NMON, o.at(1) > 0 ? 1 : 0, o.at(2), o.at(2)}}, Op{O_DESTROY_DW, {o.at(0)}}, Op{O_UNWATCH, {o.at(0), NMON}}};
+    real::g_log.clear();
+    in_composite = true;
+    real::scoped_dw_run(o.at(0), o.at(1) > 0 ? 1 : 0, o.at(2), o.at(3) != 0, &Interp::scoped_dw_step, &c);
+    in_composite = false;
   }
   void run_scoped(const Op& o) {
     if (!m.applicable(o)) { res.noops++; return; }
@@ -446,6 +469,7 @@ class Interp {
   // ---- run -------------------------------------------------------------------------------
   void run_op(const Op& o) {
     if (o.kind == O_SCOPED) { run_scoped(o); return; }
+    if (o.kind == O_SCOPED_DW) { run_scoped_dw(o); return; }
     Model before_applicable = Model();  // unused placeholder to keep structure simple
     (void)before_applicable;
     if (!m.applicable(o)) { res.noops++; return; }
@@ -466,7 +490,7 @@ class Interp {
       for (int f = 0; f < NFUNC; ++f) for (int eid : m.obj[o.at(0)].active[f]) if (!m.E.at(eid).satisfied()) { res.eol_nontrivial++; break; }
     }
     for (int q = 0; q < NALL; ++q) pre_slot_eid[q] = m.slot_eid[q];
-    for (int d = 0; d < NDW; ++d) for (int k = 0; k < NMON; ++k) pre_mon_eid[d][k] = m.mon_eid[d][k];
+    for (int d = 0; d < NDW; ++d) for (int k = 0; k < NMONX; ++k) pre_mon_eid[d][k] = m.mon_eid[d][k];
     Expect x = m.step(o);
     if (!injected) real::g_log.clear();
     CallResult got = inj_got;
@@ -720,6 +744,7 @@ class Interp {
   void exec_unchecked(const Op& o) {
     if (!m.applicable(o)) return;
     if (o.kind == O_SCOPED) { bool was = stop; stop = true; run_scoped(o); stop = was; check_severity_only(); return; }
+    if (o.kind == O_SCOPED_DW) { bool was = stop; stop = true; run_scoped_dw(o); stop = was; return; }
     int eid0 = m.next_eid;
     m.step(o);
     real::g_log.clear();
